@@ -4,6 +4,7 @@ import (
 	"context"
 	"fmt"
 	"io"
+	"io/fs"
 	"os"
 	"time"
 
@@ -26,6 +27,11 @@ func (s *stdStream) write(p []byte) (int, error) {
 			return os.Stderr.Write(p)
 		}
 		return os.Stdout.Write(p)
+	}
+	cur.stdWrites++
+	if cur.StdoutFailFrom > 0 && cur.stdWrites >= cur.StdoutFailFrom {
+		cur.WorldUse["stdout-write-failed"]++
+		return 0, &fs.PathError{Op: "write", Path: s.name, Err: errnoByName["ENOSPC"]}
 	}
 	if s.fd == 2 {
 		return cur.Stderr.Write(p)
